@@ -102,6 +102,18 @@ def finite(prog, rep):
                 if inner == ("call", G("numpy.asarray_chkfinite"), (P("x"),), ()):
                     # the check must dominate the first nquad / comparison
                     good = cfg_of(fn).dominates(d.node, "EXIT")
+        if not good and not [d for d in rd.all_defs("x") if d.kind == "assign"]:
+            # x is never rebound: then every place that reads it must read it through np.asarray_chkfinite(x)
+            parent = {}
+            for n_ in ast.walk(fn.node):
+                for c_ in ast.iter_child_nodes(n_):
+                    parent[id(c_)] = n_
+            reads = [n_ for n_ in ast.walk(fn.node) if isinstance(n_, ast.Name) and n_.id == "x" and isinstance(n_.ctx, ast.Load)]
+            def checked(n_):
+                p_ = parent.get(id(n_))
+                return isinstance(p_, ast.Call) and n_ in p_.args and isinstance(p_.func, (ast.Attribute, ast.Name)) \
+                    and (p_.func.attr if isinstance(p_.func, ast.Attribute) else p_.func.id) == "asarray_chkfinite"
+            good = bool(reads) and all(checked(n_) for n_ in reads)
         rep.check(good, "C06.finite", f"{q}:chkfinite", fn.where(), "x = atleast_2d(asarray_chkfinite(x)) dominates the computation",
                   "non-finite evaluation points must be rejected by np.asarray_chkfinite before any integration")
 
